@@ -226,8 +226,8 @@ def check_output(got, want, runstate=None):
     if not want:  # nocover
         return True
     if want:
-        # Try default
-        if got == want:
+        # Try default (a want never ends with a newline, printed text does)
+        if got == want or got == want + '\n':
             return True
 
         if runstate is None:
@@ -648,13 +648,10 @@ def remove_blankline_marker(text):
         >>> assert BLANKLINE_MARKER not in remove_blankline_marker(text4)
         >>> assert BLANKLINE_MARKER not in remove_blankline_marker(text5)
     """
-    pos_lb = '(?<=\n)'  # positive lookbehind
-    blankline_pattern = '|'.join([
-        '{pos_lb}{marker}\n', '{marker}\n',
-        '\n{marker}', '{marker}']).format(
-            marker=BLANKLINE_MARKER, pos_lb=pos_lb)
-    # blankline_pattern = r'(?<=\n)[ ]*{}\n?'.format(re.escape(BLANKLINE_MARKER))
-    new_text = re.sub(blankline_pattern, '\n', text, flags=re.MULTILINE)
+    # Only a marker that stands alone on its line denotes a blank line, the
+    # same characters inside a line of output are ordinary text.
+    blankline_pattern = r'^[^\S\n]*{}[^\S\n]*$'.format(re.escape(BLANKLINE_MARKER))
+    new_text = re.sub(blankline_pattern, '', text, flags=re.MULTILINE)
     return new_text
 
 
